@@ -100,7 +100,7 @@ func vfC25Build(c vfC25Case, withUfrag bool) (ice.Candidate, error) {
 		return nil, fmt.Errorf("tcptype on a non-host candidate is outside the domain (pion/ice's parser drops it)")
 	}
 	for _, e := range c.Exts {
-		if e.K == "ufrag" && withUfrag && c.Ufrag != 0 {
+		if e.K == "ufrag" && withUfrag {
 			continue // the ufrag mode decides
 		}
 		if err := cand.AddExtension(ice.CandidateExtension{Key: e.K, Value: e.V}); err != nil {
@@ -357,7 +357,7 @@ func vfC25RunAdd(v *vfT, c vfC25Case) {
 		// Not part of the statement (only counted): does a candidate the agent keeps become visible?
 		if c.TCPType != "active" && !strings.HasSuffix(c.Addr, ".local") {
 			landed := false
-			for deadline := time.Now().Add(200 * time.Millisecond); !landed && time.Now().Before(deadline); {
+			for deadline := time.Now().Add(20 * time.Millisecond); !landed && time.Now().Before(deadline); {
 				n, _, err := vfC25RemoteCount(pc)
 				landed = err == nil && n >= 1
 				if !landed {
@@ -367,7 +367,7 @@ func vfC25RunAdd(v *vfT, c vfC25Case) {
 			if landed {
 				v.Label("accepted-candidate-visible-in-agent")
 			} else {
-				v.Label(fmt.Sprintf("accepted-candidate-NOT-visible-in-agent(unasserted,ufrag-mode=%d)", c.Ufrag))
+				v.Label(fmt.Sprintf("accepted-candidate-NOT-visible-in-agent(unasserted,ufrag-mode=%d,net=%s,tcptype=%s,typ=%s)", c.Ufrag, c.Net, c.TCPType, c.Typ))
 			}
 		}
 		return
